@@ -99,6 +99,34 @@ def expected_class(op: str, args: Dict[str, Any]) -> Optional[str]:  # noqa: WPS
         if set(am) - set(ins) or set(gm) - (set(ins) | set(outs)):
             return "IncompatibleArgsError"
         return None
+    if op == "from_dict":
+        d = args["d"]
+        if not isinstance(d, dict) or "D" not in d:
+            return None
+        try:
+            top = {k: v for k, v in d["D"]}
+            ins = [x for x in top["input_vars"]["L"]]
+            outs = [x for x in top["output_vars"]["L"]]
+            if not all(isinstance(x, str) for x in ins + outs):
+                return None
+
+            def mentions(clauses):
+                out = []
+                for cl in clauses["L"]:
+                    c = {k: v for k, v in cl["D"]}
+                    for name, val in c["coefficients"]["D"]:
+                        if float.fromhex(val[1]) != 0 and name not in out:  # the term constructor drops zero coefficients
+                            out.append(name)
+                return out
+
+            am, gm = mentions(top["assumptions"]), mentions(top["guarantees"])
+        except (KeyError, TypeError, ValueError, IndexError):
+            return None
+        if len(ins) != len(set(ins)) or len(outs) != len(set(outs)) or set(ins) & set(outs):
+            return "IncompatibleArgsError"
+        if set(am) - set(ins) or set(gm) - (set(ins) | set(outs)):
+            return "IncompatibleArgsError"
+        return None
     if op == "contains_behavior":
         mention = _tl_mentions(args["self"])
         beh = args["behavior"]
